@@ -497,17 +497,219 @@ type LockInfo struct {
 	BadUnlock []ssa.Instruction
 	// deferred unlocks
 	Deferred map[string]bool
+	// locks assumed held at entry (closures run synchronously under the creator's locks)
+	Entry LockSet
+	// locks possibly held (on some path) immediately before each instruction
+	mayBefore map[ssa.Instruction]LockSet
 }
 
-func Locks(fn *ssa.Function) *LockInfo {
-	li := &LockInfo{fn: fn, before: map[ssa.Instruction]LockSet{}, LeakAtReturn: map[string]ssa.Instruction{}, Deferred: map[string]bool{}}
+// MayHeld returns the locks held on at least one path just before in.
+func (li *LockInfo) MayHeld(in ssa.Instruction) LockSet {
+	if s, ok := li.mayBefore[in]; ok {
+		return s
+	}
+	return LockSet{}
+}
+
+func union(a, b LockSet) LockSet {
+	n := a.clone()
+	for k, v := range b {
+		if w, ok := n[k]; !ok || (w == LockR && v == LockW) {
+			n[k] = v
+		}
+	}
+	return n
+}
+
+func (li *LockInfo) computeMay(entry LockSet) {
+	fn := li.fn
+	li.mayBefore = map[ssa.Instruction]LockSet{}
+	if len(fn.Blocks) == 0 {
+		return
+	}
+	in := map[*ssa.BasicBlock]LockSet{fn.Blocks[0]: entry.clone()}
+	out := map[*ssa.BasicBlock]LockSet{}
+	changed := true
+	for iter := 0; changed && iter < 200; iter++ {
+		changed = false
+		for _, b := range fn.Blocks {
+			cur := LockSet{}
+			if b == fn.Blocks[0] {
+				cur = entry.clone()
+			}
+			for _, p := range b.Preds {
+				if o, ok := out[p]; ok {
+					cur = union(cur, o)
+				}
+			}
+			in[b] = cur
+			c2 := cur.clone()
+			for _, ins := range b.Instrs {
+				if op, ok := lockOpOf(ins); ok && !op.defer_ {
+					if op.acq {
+						c2[op.lock] = op.mode
+					} else {
+						delete(c2, op.lock)
+					}
+				}
+			}
+			if old, ok := out[b]; !ok || !equalSets(old, c2) {
+				out[b] = c2
+				changed = true
+			}
+		}
+	}
+	for _, b := range fn.Blocks {
+		cur := in[b].clone()
+		for _, ins := range b.Instrs {
+			li.mayBefore[ins] = cur.clone()
+			if op, ok := lockOpOf(ins); ok && !op.defer_ {
+				if op.acq {
+					cur[op.lock] = op.mode
+				} else {
+					delete(cur, op.lock)
+				}
+			}
+		}
+	}
+}
+
+func Locks(fn *ssa.Function) *LockInfo { return LocksFrom(fn, LockSet{}) }
+
+// syncCallbackTakers: callees known to invoke a func argument synchronously,
+// on the caller's goroutine, before they return.
+var syncCallbackTakers = map[string]bool{"Each": true, "Do": true, "DeleteFunc": true, "ContainsFunc": true, "IndexFunc": true, "SortFunc": true}
+
+// LocksInherit analyses fn; when fn is a closure created only as a direct
+// argument of a synchronous callback taker, the analysis starts from the lock
+// set held at that call in the (recursively analysed) parent.
+var inheritMemo = map[*ssa.Function]*LockInfo{}
+var inheritBusy = map[*ssa.Function]bool{}
+var inheritProg *Program
+
+func LocksInherit(fn *ssa.Function) *LockInfo {
+	if li, ok := inheritMemo[fn]; ok {
+		return li
+	}
+	if inheritBusy[fn] {
+		return Locks(fn)
+	}
+	inheritBusy[fn] = true
+	li := locksInherit(fn)
+	delete(inheritBusy, fn)
+	inheritMemo[fn] = li
+	return li
+}
+
+// callerEntry: for an unexported method, the locks (relative to its receiver)
+// that every static call site in the module holds.
+func callerEntry(p *Program, fn *ssa.Function) LockSet {
+	if p == nil || fn.Signature.Recv() == nil || len(fn.Params) == 0 {
+		return LockSet{}
+	}
+	n := fn.Name()
+	if len(n) == 0 || (n[0] >= 'A' && n[0] <= 'Z') {
+		return LockSet{}
+	}
+	recv := fn.Params[0].Name()
+	var entry LockSet
+	first := true
+	for _, caller := range p.SrcFuncs() {
+		for _, cs := range Calls(caller) {
+			sc := cs.Common().StaticCallee()
+			if sc == nil || originOf(sc) != fn {
+				continue
+			}
+			if cs.IsGo() || cs.IsDefer() {
+				return LockSet{}
+			}
+			arg := stripAmp(Term(cs.Common().Args[0]))
+			h := LockSet{}
+			for l, m := range LocksInherit(caller).Held(cs.Instr) {
+				if strings.HasPrefix(l, arg+".") {
+					h[recv+strings.TrimPrefix(l, arg)] = m
+				}
+			}
+			if first {
+				entry = h
+				first = false
+			} else {
+				entry = intersect(entry, h)
+			}
+		}
+	}
+	if first {
+		return LockSet{}
+	}
+	// a method value taken anywhere (bound method used as callback) defeats the census
+	return entry
+}
+
+func locksInherit(fn *ssa.Function) *LockInfo {
+	parent := fn.Parent()
+	if parent == nil {
+		if e := callerEntry(inheritProg, fn); len(e) > 0 && !methodValueTaken(inheritProg, fn) {
+			return LocksFrom(fn, e)
+		}
+		return Locks(fn)
+	}
+	var entry LockSet
+	first := true
+	ok := true
+	for _, b := range parent.Blocks {
+		for _, in := range b.Instrs {
+			mc, isMC := in.(*ssa.MakeClosure)
+			if !isMC || mc.Fn != ssa.Value(fn) {
+				continue
+			}
+			if mc.Referrers() == nil {
+				ok = false
+				continue
+			}
+			for _, r := range *mc.Referrers() {
+				call, isCall := r.(*ssa.Call)
+				if !isCall {
+					ok = false
+					continue
+				}
+				name := ""
+				if call.Call.IsInvoke() {
+					name = call.Call.Method.Name()
+				} else if sc := call.Call.StaticCallee(); sc != nil {
+					name = originOf(sc).Name()
+				}
+				if !syncCallbackTakers[name] {
+					ok = false
+					continue
+				}
+				pli := LocksInherit(parent)
+				h := pli.Held(call)
+				// deferred unlocks of the parent keep the lock held during the call: Held() already reflects that
+				if first {
+					entry = h.clone()
+					first = false
+				} else {
+					entry = intersect(entry, h)
+				}
+			}
+		}
+	}
+	if !ok || first {
+		return Locks(fn)
+	}
+	return LocksFrom(fn, entry)
+}
+
+func LocksFrom(fn *ssa.Function, entry LockSet) *LockInfo {
+	li := &LockInfo{fn: fn, before: map[ssa.Instruction]LockSet{}, LeakAtReturn: map[string]ssa.Instruction{}, Deferred: map[string]bool{}, Entry: entry}
 	if len(fn.Blocks) == 0 {
 		return li
 	}
+	li.computeMay(entry)
 	in := map[*ssa.BasicBlock]LockSet{}
 	out := map[*ssa.BasicBlock]LockSet{}
 	reach := map[*ssa.BasicBlock]bool{fn.Blocks[0]: true}
-	in[fn.Blocks[0]] = LockSet{}
+	in[fn.Blocks[0]] = entry.clone()
 	// deferred set is flow-insensitive on purpose: a `defer mu.Unlock()` anywhere
 	// releases at exit; we only use it to excuse "held at return".
 	changed := true
@@ -575,6 +777,9 @@ func Locks(fn *ssa.Function) *LockInfo {
 			}
 			if _, isRet := ins.(*ssa.Return); isRet {
 				for l := range cur {
+					if _, inherited := li.Entry[l]; inherited {
+						continue // held by the creator before and after the callback
+					}
 					if !li.Deferred[l] {
 						li.LeakAtReturn[l] = ins
 					}
@@ -1180,4 +1385,29 @@ func unwrapLoadAddr(v ssa.Value) (*ssa.IndexAddr, bool) {
 		}
 	}
 	return nil, false
+}
+
+// methodValueTaken: fn is used as a value (bound method / function value) somewhere in the module.
+func methodValueTaken(p *Program, fn *ssa.Function) bool {
+	for _, f := range p.SrcFuncs() {
+		for _, b := range f.Blocks {
+			for _, in := range b.Instrs {
+				switch x := in.(type) {
+				case *ssa.MakeClosure:
+					if bf, ok := x.Fn.(*ssa.Function); ok && bf.Synthetic != "" && strings.Contains(bf.Name(), fn.Name()+"$bound") {
+						return true
+					}
+				}
+				for _, op := range in.Operands(nil) {
+					if *op == ssa.Value(fn) {
+						if ci, ok := in.(ssa.CallInstruction); ok && ci.Common().Value == ssa.Value(fn) {
+							continue
+						}
+						return true
+					}
+				}
+			}
+		}
+	}
+	return false
 }
